@@ -317,6 +317,10 @@ def run(ctx):
         if f:
             ctx.violation('san:alias_drv:%s' % f, 'alias driver under %s: %s' % (sc, err[-2000:]), {'config': sc})
         ctx.event('sanitized-workload:C18', sc, n=out.count('\n'))
+    # ---- monitor 3b: the DIRECTED raw / prime-field vectors of C02 and C03 (every carry chain, the compare-and-subtract arms, the exact
+    #      carry coincidences of the Montgomery reduction) with operands and results flush against PROT_NONE pages, production build,
+    #      both x86 routine families (dispatch default and baseline through the pointer swap) and the direct assembly entry points
+    guarded_vectors(ctx)
     # ---- monitor 3: libFuzzer over the unmarshal protocol (thorough tier)
     if not ctx.quick:
         fuzz(ctx)
@@ -337,18 +341,58 @@ def run(ctx):
                 'library source location; (2) the Go-binding unmarshal protocol (exact-size heap copies, slot arrays of exactly the reported size) on valid buffers of every object kind and their '
                 'hostile neighbourhood (every truncation/extension class, first byte 0/1/2/255, bit flips, element garbage, random bytes up to 4 KiB), under ASan+UBSan and on the production build '
                 'with the buffer flush against PROT_NONE pages at either end; length discovery is compared with an independent statement of the format; accepted buffers must re-marshal; '
-                '(3) field/group/pairing operations with operands flush against guard pages (assembly routines); (4) thorough: libFuzzer (ASan+UBSan) over the same protocol; '
+                '(3) field/group/pairing operations with operands flush against guard pages (assembly routines), and the directed raw / prime-field vectors of C02/C03 (carry chains, compare-and-subtract arms, exact carry coincidences) through both x86 routine families and the direct assembly entry points with every operand in a guard-page arena; (4) thorough: libFuzzer (ASan+UBSan) over the same protocol; '
                 '(5) valgrind memcheck over the production build (-Ofast, assembly routines) on a bounded sample of every workload of C01-C17: uninitialised-value use and invalid accesses, also inside the assembly. '
                 'class = (object kind, mutation label, verdict) / sanitized workload')
     ctx.extra['buffer_configs'] = cfgs
     ctx.extra['sanitizer_configs'] = san_cfgs
     ctx.assumptions = ['ASan sees heap/stack/global red zones only (intra-object overruns: C08 cursor monitor, C06 guard words)', 'Go bindings themselves are not executed; their allocation protocol is reproduced in C']
     need = ['length-discovery-sweep:wparams|c/firstbyte1', 'length-discovery-sweep:wsk|u/firstbyte1', 'length-discovery-sweep:wsk|c/firstbyte255', 'unmarshal:wsk|every-prefix', 'unmarshal:wparams|truncated', 'unmarshal:wsk|truncated', 'unmarshal:wsk|extended', 'unmarshal:wparams|valid/accepted', 'unmarshal:wsk|valid/accepted', 'unmarshal:wsk|first-byte-0', 'unmarshal:wparams|identity-element/accepted', 'unmarshal:wsk|identity-element', 'unmarshal:wsk|valid-misaligned/accepted', 'unmarshal:lid|valid-misaligned',
-            'guard-page:field-group-pairing|completed', 'memcheck-workload|C02', 'memcheck-workload|C11', 'memcheck-workload|C01', 'memcheck-workload|C17', 'memcheck-workload|C15', 'sanitized-workload:C11|san', 'sanitized-workload:C15|san', 'sanitized-workload:C02|san']
+            'guard-page:field-group-pairing|completed', 'guard-page:directed-vectors|guard-end/x86-baseline', 'guard-page:directed-vectors|guard-start/dispatch-default', 'memcheck-workload|C02', 'memcheck-workload|C11', 'memcheck-workload|C01', 'memcheck-workload|C17', 'memcheck-workload|C15', 'sanitized-workload:C11|san', 'sanitized-workload:C15|san', 'sanitized-workload:C02|san']
     for r in need:
         if not any(k.startswith(r) for k in ctx.classes):
             ctx.required_classes.add(r)
     return None
+
+
+def guarded_vectors(ctx):
+    import random
+    import c02
+    import c03
+    exe = build.build_driver('prod', 'opdrv.cpp')
+    vecs = c03.gen_vectors(random.Random(33), 40 if ctx.quick else 800, True)
+    lines = [c03.line_for(k, F, prm) for k, F, prm in vecs]
+    for fam in ('base', 'bmi2'):
+        lines += [l for l in (c03.asm_line(k, F, prm, fam) for k, F, prm in vecs) if l]
+
+    class G:
+        def __init__(self):
+            self.lines = []
+
+        def add(self, line, *meta):
+            self.lines.append(line)
+    g = G()
+    drng = random.Random(20260927)
+    for F in (c02.FQ, c02.FR):
+        c02.gen_directed(g, F, drng)
+        c02.gen_coincidences(g, F, drng)
+    lines += [l for l in g.lines if l.split(' ')[0].split('.')[1] in ('add', 'sub', 'mul', 'sqr', 'dbl', 'neg', 'inv', 'set', 'get', 'mont', 'hashred', 'reduce', 'exp', 'copy')]
+    text = '\n'.join(lines) + '\n'
+    for guard in ('--guard-end', '--guard-start'):
+        for fam in ([], ['--x86base']):
+            rc, out, err = harness.run_driver(exe, text, args=[guard] + fam, timeout=1800)
+            nout = out.count('\n')
+            label = '%s/%s' % (guard[2:], 'x86-baseline' if fam else 'dispatch-default')
+            if rc != 0:
+                ol = [l for l in out.split('\n') if l]
+                culprit = lines[len(ol) - 1] if 0 < len(ol) <= len(lines) else (lines[0] if lines else '')
+                f = harness.classify_failure(rc, err) or ('exit:%s' % rc)
+                ctx.violation('guard-page:%s:%s:%s' % (culprit.split(' ')[0], 'x86-baseline' if fam else 'dispatch-default', f),
+                              'raw / field operation touched memory outside its operands (%s, %s): %s ... %s' % (label, f, culprit[:300], err[-300:]),
+                              {'line': culprit, 'config': 'prod', 'args': [guard] + fam})
+            elif nout != len(lines):
+                raise harness.HarnessError('guarded vector run answered %d of %d lines' % (nout, len(lines)))
+            ctx.event('guard-page:directed-vectors', label, n=max(1, nout))
 
 
 def fuzz(ctx):
